@@ -32,7 +32,8 @@ use std::time::Duration;
 use super::c09::rig::{self, Cfg, Kiss, Rig, Stub, StubShared, TimerOut, Ver, View};
 use super::common::{self, Ctx};
 use crate::algorithm::{
-    AlgorithmConfig, KalmanClockController, SourceController, TimeSyncController, TimeSyncControllerWrapper,
+    AlgorithmConfig, KalmanClockController, SourceController, TimeSyncController,
+    TimeSyncControllerWrapper,
 };
 use crate::config::SynchronizationConfig;
 use crate::time_types::{NtpDuration, NtpTimestamp};
@@ -60,7 +61,11 @@ fn timer_ok(p: i8, t: Duration) -> bool {
     let hi = base * 105 / 100;
     let hi = hi + hi / 1_000_000_000 + 1;
     let ns = t.as_nanos();
-    if p > 31 { ns >= lo } else { ns >= lo && ns <= hi }
+    if p > 31 {
+        ns >= lo
+    } else {
+        ns >= lo && ns <= hi
+    }
 }
 
 struct Bounds {
@@ -134,7 +139,11 @@ impl Bounds {
                     "C10:timer-out-of-range",
                     format!(
                         "next poll scheduled {} x 2^{poll} s after a poll with exponent {poll}",
-                        if timer.as_secs_f64() / ((1u64 << poll.clamp(0, 31)) as f64) < 1.01 { "less than 1.01" } else { "more than 1.05" }
+                        if timer.as_secs_f64() / ((1u64 << poll.clamp(0, 31)) as f64) < 1.01 {
+                            "less than 1.01"
+                        } else {
+                            "more than 1.05"
+                        }
                     ),
                     trace(),
                 );
@@ -184,7 +193,15 @@ fn request_values(cfg: &Cfg) -> Vec<i8> {
 }
 
 fn desire_values(cfg: &Cfg) -> Vec<i8> {
-    let mut v = vec![cfg.min - 1, cfg.min, ((cfg.min as i16 + cfg.max as i16) / 2) as i8, cfg.max, cfg.max + 1, -128, 127];
+    let mut v = vec![
+        cfg.min - 1,
+        cfg.min,
+        ((cfg.min as i16 + cfg.max as i16) / 2) as i8,
+        cfg.max,
+        cfg.max + 1,
+        -128,
+        127,
+    ];
     let mut seen = HashSet::new();
     v.retain(|x| seen.insert(*x));
     v
@@ -199,7 +216,13 @@ fn alphabet_a(cfg: &Cfg, quick: bool) -> Vec<Ev> {
     let mut v = vec![Ev::T, Ev::N, Ev::Rate];
     if cfg.ver == Ver::V5 {
         for i in 0..5u8 {
-            let keep = if !quick { true } else if wide { i == 0 || i == 2 || i == 3 } else { i < 4 };
+            let keep = if !quick {
+                true
+            } else if wide {
+                i == 0 || i == 2 || i == 3
+            } else {
+                i < 4
+            };
             if keep {
                 v.push(Ev::Q(i));
             }
@@ -241,14 +264,21 @@ struct EndA {
 }
 
 fn fmt_a(cfg: &Cfg, h: &[Ev]) -> String {
-    format!("A;{};{}", cfg.tag(), h.iter().map(|e| e.code()).collect::<Vec<_>>().join(","))
+    format!(
+        "A;{};{}",
+        cfg.tag(),
+        h.iter().map(|e| e.code()).collect::<Vec<_>>().join(",")
+    )
 }
 
 async fn replay_a(cfg: &Cfg, hist: &[Ev], ctx: Option<&Ctx>, classes: Option<&Classes>) -> EndA {
     let shared = Arc::new(StubShared::default());
     shared.desire.store(cfg.min as i32, Ordering::Relaxed);
     let mut rig = Rig::new(*cfg, Stub(shared.clone()));
-    let mut b = Bounds { requested: i16::MIN, excused: i16::MIN };
+    let mut b = Bounds {
+        requested: i16::MIN,
+        excused: i16::MIN,
+    };
     let mut pending = false;
     let mut terminal = false;
     let mut applied = true;
@@ -303,7 +333,11 @@ async fn replay_a(cfg: &Cfg, hist: &[Ev], ctx: Option<&Ctx>, classes: Option<&Cl
                     TimerOut::Odd(s) => {
                         terminal = true;
                         if let Some(c) = check {
-                            c.violation("C10:send-without-single-timer", format!("handle_timer returned {s}"), trace());
+                            c.violation(
+                                "C10:send-without-single-timer",
+                                format!("handle_timer returned {s}"),
+                                trace(),
+                            );
                         }
                     }
                 }
@@ -321,7 +355,13 @@ async fn replay_a(cfg: &Cfg, hist: &[Ev], ctx: Option<&Ctx>, classes: Option<&Cl
                         _ => None,
                     },
                     // (an NTPv5 "poll own+1" at own = 126 would be 127 = DENY, not RATE)
-                    Ev::Rate => if req.ver == 5 && req.poll >= 126 { None } else { rig::kiss(&req, Kiss::Rate) },
+                    Ev::Rate => {
+                        if req.ver == 5 && req.poll >= 126 {
+                            None
+                        } else {
+                            rig::kiss(&req, Kiss::Rate)
+                        }
+                    }
                     Ev::RateBig => {
                         if req.ver == 5 && req.poll < 126 {
                             rig::kiss(&req, Kiss::Rate).map(|mut w| {
@@ -373,11 +413,22 @@ async fn replay_a(cfg: &Cfg, hist: &[Ev], ctx: Option<&Ctx>, classes: Option<&Cl
     // Reach abstraction: `handle_timer` reads the register only through is_reachable() and
     // unanswered_polls() = trailing_zeros; poll() shifts left and received_packet() sets bit
     // 0, so the position of the lowest set bit alone decides every future action.
-    view.reach = if view.reach == 0 { 8 } else { view.reach.trailing_zeros() as u8 };
+    view.reach = if view.reach == 0 {
+        8
+    } else {
+        view.reach.trailing_zeros() as u8
+    };
     view.stratum = 0;
     view.refid.clear();
     EndA {
-        key: KeyA { view, desire: shared.desire.load(Ordering::Relaxed) as i8, requested: b.requested, excused: b.excused, pending, terminal },
+        key: KeyA {
+            view,
+            desire: shared.desire.load(Ordering::Relaxed) as i8,
+            requested: b.requested,
+            excused: b.excused,
+            pending,
+            terminal,
+        },
         applied,
         obs,
     }
@@ -393,7 +444,13 @@ struct BfsOut {
 
 /// Level-parallel BFS over all part-A configurations at once (one barrier per depth).
 fn explore_all_a(ctx: &Ctx, cfgs: &[(Cfg, Vec<Ev>)], classes: &Classes) -> Vec<BfsOut> {
-    let mut outs = vec![BfsOut { states: 1, ..BfsOut::default() }; cfgs.len()];
+    let mut outs = vec![
+        BfsOut {
+            states: 1,
+            ..BfsOut::default()
+        };
+        cfgs.len()
+    ];
     let mut seen: HashSet<(usize, KeyA)> = HashSet::new();
     let mut frontier: Vec<(usize, Vec<Ev>)> = Vec::new();
     for (ci, (cfg, _)) in cfgs.iter().enumerate() {
@@ -462,7 +519,10 @@ fn explore_all_a(ctx: &Ctx, cfgs: &[(Cfg, Vec<Ev>)], classes: &Classes) -> Vec<B
     for (ci, o) in outs.iter_mut().enumerate() {
         o.fixpoint = !frontier.iter().any(|f| f.0 == ci);
     }
-    ctx.distinct_many(seen.iter().map(|(ci, k)| common::hash_of(&("A", &cfgs[*ci].0, k))));
+    ctx.distinct_many(
+        seen.iter()
+            .map(|(ci, k)| common::hash_of(&("A", &cfgs[*ci].0, k))),
+    );
     outs
 }
 
@@ -512,12 +572,26 @@ struct EndB {
 }
 
 /// One history on the real filter. All steps are checked (a history is executed once).
-async fn run_b(cfg: &Cfg, hyst: i32, prefix: &str, word: &str, ctx: Option<&Ctx>, classes: Option<&Classes>) -> EndB {
-    let algo = AlgorithmConfig { poll_interval_hysteresis: hyst, ..AlgorithmConfig::default() };
-    let wrapper: Wrapper = TimeSyncController::new(Clk, SynchronizationConfig::default(), algo).expect("controller");
+async fn run_b(
+    cfg: &Cfg,
+    hyst: i32,
+    prefix: &str,
+    word: &str,
+    ctx: Option<&Ctx>,
+    classes: Option<&Classes>,
+) -> EndB {
+    let algo = AlgorithmConfig {
+        poll_interval_hysteresis: hyst,
+        ..AlgorithmConfig::default()
+    };
+    let wrapper: Wrapper =
+        TimeSyncController::new(Clk, SynchronizationConfig::default(), algo).expect("controller");
     let ctl: KalmanCtl = wrapper.add_source(ClockId::new(), cfg.source_config());
     let mut rig = Rig::new(*cfg, ctl);
-    let mut b = Bounds { requested: i16::MIN, excused: i16::MIN };
+    let mut b = Bounds {
+        requested: i16::MIN,
+        excused: i16::MIN,
+    };
     let mut desires = Vec::new();
     let mut prev = rig.controller().desired_poll_interval().as_log();
     let mut obs = String::new();
@@ -546,7 +620,15 @@ async fn run_b(cfg: &Cfg, hyst: i32, prefix: &str, word: &str, ctx: Option<&Ctx>
                 if d > *prev {
                     bump(classes, "filter_desire_up", 1);
                 } else if d < *prev {
-                    bump(classes, if d == cfg.min && *prev > cfg.min + 1 { "filter_desire_reset_to_min" } else { "filter_desire_down" }, 1);
+                    bump(
+                        classes,
+                        if d == cfg.min && *prev > cfg.min + 1 {
+                            "filter_desire_reset_to_min"
+                        } else {
+                            "filter_desire_down"
+                        },
+                        1,
+                    );
                 }
                 if d == cfg.max && cfg.max > cfg.min {
                     bump(classes, "filter_desire_at_max", 1);
@@ -566,7 +648,11 @@ async fn run_b(cfg: &Cfg, hyst: i32, prefix: &str, word: &str, ctx: Option<&Ctx>
             }
             TimerOut::Odd(s) => {
                 if let Some(c) = ctx {
-                    c.violation("C10:send-without-single-timer", format!("handle_timer returned {s}"), trace());
+                    c.violation(
+                        "C10:send-without-single-timer",
+                        format!("handle_timer returned {s}"),
+                        trace(),
+                    );
                 }
                 break 'outer;
             }
@@ -633,9 +719,21 @@ fn run_part_b(ctx: &Ctx, classes: &Classes) {
         for &init in &GRID {
             for &max in &GRID {
                 if min <= init && init <= max {
-                    cfgs.push(Cfg { nts: false, ver: Ver::V4, min, init, max });
+                    cfgs.push(Cfg {
+                        nts: false,
+                        ver: Ver::V4,
+                        min,
+                        init,
+                        max,
+                    });
                     if !quick || (init == min || init == max) {
-                        cfgs.push(Cfg { nts: false, ver: Ver::V5, min, init, max });
+                        cfgs.push(Cfg {
+                            nts: false,
+                            ver: Ver::V5,
+                            min,
+                            init,
+                            max,
+                        });
                     }
                 }
             }
@@ -644,7 +742,11 @@ fn run_part_b(ctx: &Ctx, classes: &Classes) {
     ctx.set("b_configs", cfgs.len() as u64);
     let mut jobs: Vec<(Cfg, i32, &str, Vec<char>)> = Vec::new();
     for cfg in &cfgs {
-        let alphabet: Vec<char> = ROUNDS.iter().copied().filter(|c| *c != 'Q' || cfg.ver == Ver::V5).collect();
+        let alphabet: Vec<char> = ROUNDS
+            .iter()
+            .copied()
+            .filter(|c| *c != 'Q' || cfg.ver == Ver::V5)
+            .collect();
         for &h in hysts {
             for p in PREFIXES {
                 jobs.push((*cfg, h, p, alphabet.clone()));
@@ -663,12 +765,21 @@ fn run_part_b(ctx: &Ctx, classes: &Classes) {
     common::par_for(total, 64, |x| {
         let ji = offsets.partition_point(|o| *o <= x) - 1;
         let (cfg, h, p, alphabet) = &jobs[ji];
-        let w: String = common::word_of(x - offsets[ji], alphabet.len(), n).iter().map(|i| alphabet[*i]).collect();
+        let w: String = common::word_of(x - offsets[ji], alphabet.len(), n)
+            .iter()
+            .map(|i| alphabet[*i])
+            .collect();
         let lc: Classes = Mutex::new(BTreeMap::new());
-        let end = match common::catch(|| rig::on_paused_rt(run_b(cfg, *h, p, &w, Some(ctx), Some(&lc)))) {
+        let end = match common::catch(|| {
+            rig::on_paused_rt(run_b(cfg, *h, p, &w, Some(ctx), Some(&lc)))
+        }) {
             Ok(e) => e,
             Err(e) => {
-                ctx.violation("C10:panic", format!("panic while driving the source / filter: {e}"), fmt_b(cfg, *h, p, &w));
+                ctx.violation(
+                    "C10:panic",
+                    format!("panic while driving the source / filter: {e}"),
+                    fmt_b(cfg, *h, p, &w),
+                );
                 return;
             }
         };
@@ -685,18 +796,33 @@ fn run_part_b(ctx: &Ctx, classes: &Classes) {
             }
         }
         if moved {
-            obs_set.lock().unwrap().insert(common::hash_of(&(cfg, h, p, &end.desires)));
+            obs_set
+                .lock()
+                .unwrap()
+                .insert(common::hash_of(&(cfg, h, p, &end.desires)));
         }
         if x % 50_021 == 11 {
-            ctx.sample(format!("{} -> poll/desire per round: {}", fmt_b(cfg, *h, p, &w), end.obs));
+            ctx.sample(format!(
+                "{} -> poll/desire per round: {}",
+                fmt_b(cfg, *h, p, &w),
+                end.obs
+            ));
         }
     });
     ctx.distinct_many(obs_set.into_inner().unwrap());
     if !quick {
         // the default hysteresis (16) needs long runs before the desire moves at all: a few
         // long fixed words per configuration
-        let long_words = ["A".repeat(80), "AK".repeat(40), format!("{}{}", "A".repeat(40), "UW".repeat(20)), "AAAJ".repeat(20)];
-        let jobs2: Vec<(Cfg, String)> = cfgs.iter().flat_map(|c| long_words.iter().map(move |w| (*c, w.clone()))).collect();
+        let long_words = [
+            "A".repeat(80),
+            "AK".repeat(40),
+            format!("{}{}", "A".repeat(40), "UW".repeat(20)),
+            "AAAJ".repeat(20),
+        ];
+        let jobs2: Vec<(Cfg, String)> = cfgs
+            .iter()
+            .flat_map(|c| long_words.iter().map(move |w| (*c, w.clone())))
+            .collect();
         common::par_for(jobs2.len() as u64, 1, |x| {
             let (cfg, w) = &jobs2[x as usize];
             let lc: Classes = Mutex::new(BTreeMap::new());
@@ -721,9 +847,17 @@ fn replay(ctx: &Ctx, trace: &str) -> String {
     let parts: Vec<&str> = trace.split(';').collect();
     match parts.first().copied() {
         Some("A") if parts.len() >= 3 => {
-            let Some(cfg) = Cfg::parse(parts[1]) else { return "bad config".into() };
-            let evs: Option<Vec<Ev>> = if parts[2].trim().is_empty() { Some(vec![]) } else { parts[2].split(',').map(|s| Ev::parse(s.trim())).collect() };
-            let Some(evs) = evs else { return "bad events".into() };
+            let Some(cfg) = Cfg::parse(parts[1]) else {
+                return "bad config".into();
+            };
+            let evs: Option<Vec<Ev>> = if parts[2].trim().is_empty() {
+                Some(vec![])
+            } else {
+                parts[2].split(',').map(|s| Ev::parse(s.trim())).collect()
+            };
+            let Some(evs) = evs else {
+                return "bad events".into();
+            };
             let mut obs = String::new();
             for n in 1..=evs.len() {
                 let end = super::block_on_paused(replay_a(&cfg, &evs[..n], Some(ctx), None));
@@ -732,8 +866,15 @@ fn replay(ctx: &Ctx, trace: &str) -> String {
             obs
         }
         Some("B") if parts.len() >= 5 => {
-            let Some(cfg) = Cfg::parse(parts[1]) else { return "bad config".into() };
-            let Some(h) = parts[2].strip_prefix('h').and_then(|x| x.parse::<i32>().ok()) else { return "bad hysteresis".into() };
+            let Some(cfg) = Cfg::parse(parts[1]) else {
+                return "bad config".into();
+            };
+            let Some(h) = parts[2]
+                .strip_prefix('h')
+                .and_then(|x| x.parse::<i32>().ok())
+            else {
+                return "bad hysteresis".into();
+            };
             let end = super::block_on_paused(run_b(&cfg, h, parts[3], parts[4], Some(ctx), None));
             format!("{} desires={:?}", end.obs, end.desires)
         }
@@ -769,11 +910,35 @@ fn check() {
     for &min in &GRID {
         for &max in &GRID {
             if min <= max {
-                a_cfgs.push(Cfg { nts: false, ver: Ver::V4, min, init: min, max });
-                a_cfgs.push(Cfg { nts: false, ver: Ver::V5, min, init: min, max });
+                a_cfgs.push(Cfg {
+                    nts: false,
+                    ver: Ver::V4,
+                    min,
+                    init: min,
+                    max,
+                });
+                a_cfgs.push(Cfg {
+                    nts: false,
+                    ver: Ver::V5,
+                    min,
+                    init: min,
+                    max,
+                });
                 if !quick && (max - min <= 6) {
-                    a_cfgs.push(Cfg { nts: true, ver: Ver::V5, min, init: min, max });
-                    a_cfgs.push(Cfg { nts: true, ver: Ver::V4, min, init: min, max });
+                    a_cfgs.push(Cfg {
+                        nts: true,
+                        ver: Ver::V5,
+                        min,
+                        init: min,
+                        max,
+                    });
+                    a_cfgs.push(Cfg {
+                        nts: true,
+                        ver: Ver::V4,
+                        min,
+                        init: min,
+                        max,
+                    });
                 }
             }
         }
@@ -792,9 +957,15 @@ fn check() {
         if !r.fixpoint {
             all_fix = false;
         }
-        let line = format!("{} states, {} transitions, depth {}, fixpoint {}", r.states, r.transitions, r.depth, r.fixpoint);
+        let line = format!(
+            "{} states, {} transitions, depth {}, fixpoint {}",
+            r.states, r.transitions, r.depth, r.fixpoint
+        );
         ctx.note(&format!("A_{}", cfg.tag()), &line);
-        if (cfg.min == 4 && cfg.max == 10) || (cfg.min == 0 && cfg.max == 17) || (cfg.min == 6 && cfg.max == 6) {
+        if (cfg.min == 4 && cfg.max == 10)
+            || (cfg.min == 0 && cfg.max == 17)
+            || (cfg.min == 6 && cfg.max == 6)
+        {
             ctx.sample(format!("A {}: {line}", cfg.tag()));
         }
     }
